@@ -53,6 +53,8 @@ type C11Mutator struct {
 	Kind    string `json:"kind"` // patch | set | delete
 	Keys    []int  `json:"keys"`
 	Ops     []POp  `json:"ops,omitempty"`
+	AltOps  []POp  `json:"alt_ops,omitempty"` // patch: ops of the odd rounds (toggle)
+	Rounds  int    `json:"rounds,omitempty"`  // patch: the request is repeated Rounds times back to back (0/1 = once)
 	Cond    *PCond `json:"cond,omitempty"`
 	ExpSec  int    `json:"exp_sec,omitempty"` // patch: Meta.SetExpiredAt, set: ExpiredAt (seconds relative; 0 = untouched)
 	Body    Body   `json:"body,omitempty"`    // set
@@ -79,17 +81,18 @@ func keyOf(i int) string { return fmt.Sprintf("k%03d", i) }
 
 // open findings steer the main generator
 type c11Open struct {
-	deadlock, nonAtomic, stale, gap, resave, emptyCand bool
+	deadlock, nonAtomic, stale, gap, resave, emptyCand, reindexDup bool
 }
 
 func c11OpenNow() c11Open {
 	return c11Open{
-		deadlock:  pbt.Open("C11", "shift-vs-guard-holder-deadlock"),
-		nonAtomic: pbt.Open("C11", "shift-removal-not-atomic"),
-		stale:     pbt.Open("C11", "stale-candidate-keyset"),
-		gap:       pbt.Open("C11", "patch-expired-select-apply-gap"),
-		resave:    pbt.Open("C11", "patch-expired-resaves-removed-record"),
-		emptyCand: pbt.Open("C11", "empty-candidate-set-matches-all"),
+		deadlock:   pbt.Open("C11", "shift-vs-guard-holder-deadlock"),
+		nonAtomic:  pbt.Open("C11", "shift-removal-not-atomic"),
+		stale:      pbt.Open("C11", "stale-candidate-keyset"),
+		gap:        pbt.Open("C11", "patch-expired-select-apply-gap"),
+		resave:     pbt.Open("C11", "patch-expired-resaves-removed-record"),
+		emptyCand:  pbt.Open("C11", "empty-candidate-set-matches-all"),
+		reindexDup: pbt.Open("C11", "reindex-duplicates-order-entry"),
 	}
 }
 
@@ -291,6 +294,9 @@ func genC11(mode c11Mode, open c11Open) func(t *rapid.T) C11Scenario {
 	if !open.resave {
 		forced = append(forced, genC11Resave)
 	}
+	if !open.reindexDup {
+		forced = append(forced, genC11ReindexDup)
+	}
 	return func(t *rapid.T) C11Scenario {
 		if k := rapid.IntRange(0, 39).Draw(t, "forced-regression"); k < len(forced) {
 			return forced[k](t)
@@ -463,7 +469,7 @@ func genC11(mode c11Mode, open c11Open) func(t *rapid.T) C11Scenario {
 					m.Keys = append(m.Keys, k)
 				}
 			}
-			expOK := !(open.deadlock && hasShift) && !(strict && open.gap && hasPE)
+			expOK := !(open.deadlock && hasShift) && !(strict && (open.gap || open.reindexDup) && hasPE)
 			switch m.Kind {
 			case "patch":
 				var cand []POp
@@ -486,6 +492,17 @@ func genC11(mode c11Mode, open c11Open) func(t *rapid.T) C11Scenario {
 				}
 				if rapid.IntRange(0, 2).Draw(t, "mcond") == 0 {
 					m.Cond = &PCond{Field: "status", Op: rapid.SampledFrom([]string{"eq", "ne"}).Draw(t, "mcondop"), S: rapid.SampledFrom([]string{"ready", "held", "done", "leased"}).Draw(t, "mcondv")}
+				}
+				if rapid.IntRange(0, 2).Draw(t, "mrounds") == 0 {
+					// hammer the same records several times, toggling the written status
+					m.Rounds = rapid.IntRange(2, 4).Draw(t, "mroundsv")
+					for _, o := range m.Ops {
+						if o.Kind == "set-status" {
+							m.AltOps = append(m.AltOps, POp{Kind: "set-status", S: rapid.SampledFrom([]string{"ready", "held", "done"}).Draw(t, "maltst")})
+						} else {
+							m.AltOps = append(m.AltOps, o)
+						}
+					}
 				}
 				if expOK && rapid.IntRange(0, 3).Draw(t, "mexp") == 0 {
 					m.ExpSec = genExpSec(t, "mexpv")
@@ -552,6 +569,14 @@ type mutRes struct {
 	nilResp   bool
 	patch     []*hydrapb.PatchResult
 	keyst     []*hydrapb.KeyStatusPair
+	more      []mutRes // further rounds of a repeated patch
+}
+
+func (m C11Mutator) roundOps(r int) []POp {
+	if r%2 == 1 && len(m.AltOps) > 0 {
+		return m.AltOps
+	}
+	return m.Ops
 }
 
 func indexType(s string) hydrapb.IndexType_Type {
@@ -577,7 +602,6 @@ func planIndexed(f *Filt) bool {
 	}
 	return gateway.PlanFilter(f.proto()).Mode != gateway.PlanModeBypass
 }
-
 
 func (c C11Claimer) describe(i int) string {
 	switch c.Kind {
@@ -718,16 +742,28 @@ func runC11Inner(s C11Scenario) pbt.Outcome {
 			r.call = since()
 			switch m.Kind {
 			case "patch":
-				var ps []*hydrapb.TreasurePatch
-				for _, k := range m.Keys {
-					ps = append(ps, &hydrapb.TreasurePatch{Key: keyOf(k), Ops: opsProto(m.Ops), Condition: m.Cond.proto()})
+				rounds := m.Rounds
+				if rounds < 1 {
+					rounds = 1
 				}
-				req := &hydrapb.PatchTreasuresRequest{IslandID: isl, SwampName: sn, Patches: ps}
-				if m.ExpSec != 0 {
-					req.Meta = &hydrapb.PatchMeta{SetExpiredAt: nanosToTS(abs(m.ExpSec))}
+				for rd := 0; rd < rounds; rd++ {
+					var ps []*hydrapb.TreasurePatch
+					for _, k := range m.Keys {
+						ps = append(ps, &hydrapb.TreasurePatch{Key: keyOf(k), Ops: opsProto(m.roundOps(rd)), Condition: m.Cond.proto()})
+					}
+					req := &hydrapb.PatchTreasuresRequest{IslandID: isl, SwampName: sn, Patches: ps}
+					if m.ExpSec != 0 {
+						req.Meta = &hydrapb.PatchMeta{SetExpiredAt: nanosToTS(abs(m.ExpSec))}
+					}
+					cur := r
+					if rd > 0 {
+						r.more = append(r.more, mutRes{call: since()})
+						cur = &r.more[len(r.more)-1]
+					}
+					resp, err := e.r.G.PatchTreasures(e.ctx, req)
+					cur.err, cur.nilResp, cur.patch = err, resp == nil, resp.GetResults()
+					cur.ret = since()
 				}
-				resp, err := e.r.G.PatchTreasures(e.ctx, req)
-				r.err, r.nilResp, r.patch = err, resp == nil, resp.GetResults()
 			case "set":
 				kv := &hydrapb.KeyValuePair{Key: keyOf(m.Keys[0]), BytesVal: wrapBody(encodeBody(m.Body)), ExpiredAt: nanosToTS(abs(m.ExpSec))}
 				resp, err := e.r.G.Set(e.ctx, &hydrapb.SetRequest{Swamps: []*hydrapb.SwampRequest{{IslandID: isl, SwampName: sn, KeyValues: []*hydrapb.KeyValuePair{kv}, Overwrite: true}}})
@@ -746,7 +782,9 @@ func runC11Inner(s C11Scenario) pbt.Outcome {
 					r.keyst = resp.Responses[0].KeyStatuses
 				}
 			}
-			r.ret = since()
+			if r.ret == 0 {
+				r.ret = since()
+			}
 		}(i)
 	}
 	close(start)
@@ -852,6 +890,18 @@ func judgeC11(s C11Scenario, init map[string]kstate, cres []claimRes, mres []mut
 		}
 	}
 
+	// Keys a PatchTreasures / Set mutator targets may be re-inserted by that write after a claim
+	// removed them (outside C11, see the model). An insert appends to an index and sorts it in a
+	// second critical section, so such a key can transiently sit out of place: the order clause
+	// is judged on the other keys only.
+	writerKeys := map[string]bool{}
+	for _, m := range s.Mutators {
+		if m.Kind == "patch" || m.Kind == "set" {
+			for _, k := range m.Keys {
+				writerKeys[keyOf(k)] = true
+			}
+		}
+	}
 	// expiry changers (for the order check on the expiry index)
 	expTouched := map[string]bool{}
 	for _, m := range s.Mutators {
@@ -951,7 +1001,7 @@ func judgeC11(s C11Scenario, init map[string]kstate, cres []claimRes, mres []mut
 				case c.Index == "cre":
 					attr = ev.RetCre
 				}
-				if exempt {
+				if exempt || writerKeys[tr.Key] {
 					continue
 				}
 				if havePrev {
@@ -1018,6 +1068,9 @@ func judgeC11(s C11Scenario, init map[string]kstate, cres []claimRes, mres []mut
 				indexed[ev] = isIdx
 				add(p.Key, ev)
 				// oldest expired first, judged on records whose expiry nobody changes
+				if writerKeys[p.Key] {
+					continue
+				}
 				if !expTouched[p.Key] || (c.Lease != 0 && !touchedByOthers(s, cres, i, p.Key)) {
 					if havePrev && st0.Exp < prevExp {
 						return pbt.Failf("order", "%s lists %s (ExpiredAt %d) after %s (%d): not oldest-expired-first", who, p.Key, st0.Exp, prevKey, prevExp)
@@ -1040,23 +1093,35 @@ func judgeC11(s C11Scenario, init map[string]kstate, cres []claimRes, mres []mut
 		}
 		switch m.Kind {
 		case "patch":
-			if len(r.patch) != len(m.Keys) {
-				return pbt.Failf("harness", "%s: %d results for %d patches", who, len(r.patch), len(m.Keys))
-			}
-			for j, pr := range r.patch {
-				ev := &event{Actor: who, Call: r.call, Ret: r.ret, Ops: m.Ops, Cond: m.Cond, NewExp: abs(m.ExpSec)}
-				switch pr.Status {
-				case hydrapb.PatchResult_PATCHED:
-					ev.Kind = evMPatched
-					mutatedKeys[keyOf(m.Keys[j])] = true
-				case hydrapb.PatchResult_CONDITION_NOT_MET:
-					ev.Kind = evMCondFail
-				case hydrapb.PatchResult_KEY_NOT_FOUND:
-					ev.Kind = evMNotFound
-				default:
-					return pbt.Failf("unexpected-status", "%s: key %s status %v (%s)", who, pr.Key, pr.Status, pr.GetError())
+			for rd, r := range append([]mutRes{r}, r.more...) {
+				who := who
+				if rd > 0 {
+					who = fmt.Sprintf("%s round %d", who, rd)
+					if r.err != nil {
+						return pbt.Failf("rpc-error", "%s failed: %v", who, r.err)
+					}
+					if r.nilResp {
+						return pbt.Failf("panic", "%s returned (nil, nil)", who)
+					}
 				}
-				add(keyOf(m.Keys[j]), ev)
+				if len(r.patch) != len(m.Keys) {
+					return pbt.Failf("harness", "%s: %d results for %d patches", who, len(r.patch), len(m.Keys))
+				}
+				for j, pr := range r.patch {
+					ev := &event{Actor: who, Call: r.call, Ret: r.ret, Ops: m.roundOps(rd), Cond: m.Cond, NewExp: abs(m.ExpSec)}
+					switch pr.Status {
+					case hydrapb.PatchResult_PATCHED:
+						ev.Kind = evMPatched
+						mutatedKeys[keyOf(m.Keys[j])] = true
+					case hydrapb.PatchResult_CONDITION_NOT_MET:
+						ev.Kind = evMCondFail
+					case hydrapb.PatchResult_KEY_NOT_FOUND:
+						ev.Kind = evMNotFound
+					default:
+						return pbt.Failf("unexpected-status", "%s: key %s status %v (%s)", who, pr.Key, pr.Status, pr.GetError())
+					}
+					add(keyOf(m.Keys[j]), ev)
+				}
 			}
 		case "set":
 			if len(r.keyst) != 1 {
@@ -1097,6 +1162,28 @@ func judgeC11(s C11Scenario, init map[string]kstate, cres []claimRes, mres []mut
 	for k := range all {
 		if _, ok := init[k]; !ok && k != anchorKeys[0] && k != anchorKeys[1] {
 			return pbt.Failf("non-linearizable", "key %s exists at the end but was never written", k)
+		}
+	}
+
+	// clause (1): a record handed out by a Shift* must not also be acknowledged as DELETED to
+	// somebody else (keys that a Set / PatchTreasures may have re-created in between are not judged)
+	for k, evs := range events {
+		var sh, del *event
+		recreate := false
+		for _, ev := range evs {
+			switch ev.Kind {
+			case evShift:
+				sh = ev
+			case evDelOK:
+				del = ev
+			case evSetOK, evMPatched:
+				recreate = true
+			}
+		}
+		if sh != nil && del != nil && !recreate {
+			o := pbt.Failf("double-hand-out", "key %s (never re-inserted) was returned by %s AND its deletion was acknowledged (DELETED) to %s. History: %s. Plan fired: %v",
+				k, sh.Actor, del.Actor, describeEvents(evs), trimFired(rep.Fired))
+			return o
 		}
 	}
 
@@ -1322,6 +1409,9 @@ func c11Excluded(facet string, o c11Open) {
 	if o.emptyCand {
 		pbt.Excluded("C11", facet, "index-accelerated ShiftMatching filters (open finding empty-candidate-set-matches-all)")
 	}
+	if o.reindexDup {
+		pbt.Excluded("C11", facet, "expiry-changing PatchTreasures / Set concurrent with PatchExpired (open finding reindex-duplicates-order-entry)")
+	}
 }
 
 func TestC11Main(t *testing.T) {
@@ -1329,11 +1419,10 @@ func TestC11Main(t *testing.T) {
 	c11Excluded("main", o)
 	pbt.Main(t, pbt.Spec[C11Scenario]{
 		ID: "C11", Facet: "main", Rule: c11Rule,
-		Quick: 1600, Thorough: 60000,
+		Quick: 8000, Thorough: 200000,
 		Gen: genC11(modeMain, o), Run: runC11,
 	})
 }
-
 
 // hintPossible reports whether the record could at any time of the scenario have
 // satisfied the index-accelerated leg(s) of f: its initial body does, or some
@@ -1372,6 +1461,7 @@ func hintPossible(s C11Scenario, key string, f *Filt, initBody Body) bool {
 		switch m.Kind {
 		case "patch":
 			addOps(m.Ops)
+			addOps(m.AltOps)
 		case "set":
 			statuses[m.Body.Status], owners[m.Body.Owner], ns[m.Body.N] = true, true, true
 		}
@@ -1420,14 +1510,12 @@ func hintPossible(s C11Scenario, key string, f *Filt, initBody Body) bool {
 	return false
 }
 
-
 func trimFired(f []string) []string {
 	if len(f) > 12 {
 		return append(append([]string(nil), f[:12]...), fmt.Sprintf("… %d more", len(f)-12))
 	}
 	return f
 }
-
 
 func isPEShape(evs []*event) bool {
 	for _, e := range evs {
@@ -1447,7 +1535,7 @@ func TestC11Mixed(t *testing.T) {
 	c11Excluded("mixed", o)
 	sp := pbt.Spec[C11Scenario]{
 		ID: "C11", Facet: "mixed", Rule: "full domain of the main facet without the exclusions for open findings; " + c11Rule,
-		Quick: 1200, Thorough: 60000,
+		Quick: 5000, Thorough: 120000,
 		Gen: genC11(modeMixed, o), Run: runC11,
 	}
 	var name string
@@ -1460,6 +1548,7 @@ func TestC11Mixed(t *testing.T) {
 		{o.stale, "stale-candidate-keyset", "stale-candidate"},
 		{o.gap, "patch-expired-select-apply-gap", "select-apply-gap"},
 		{o.resave, "patch-expired-resaves-removed-record", "resurrected"},
+		{o.reindexDup, "reindex-duplicates-order-entry", "resurrected"},
 	} {
 		if x.open {
 			if name == "" {
@@ -1816,7 +1905,7 @@ func TestC11Sequential(t *testing.T) {
 		Rule: "one request at a time on 4–24 records with pairwise distinct ExpiredAt / CreatedAt: 1–6 steps of ShiftExpired / ShiftMatching (3 indexes, both orders, filters, windows, HowMany/MaxResults) / PatchExpired (ops, condition, filter, lease) " +
 			"interleaved with PatchTreasures / Delete; every response must be EXACTLY the first `limit` matching records in index order (oldest first) with their stored bodies and timestamps, PatchExpired statuses/bodies/expiries per the model, and the final state must equal the model. " +
 			"Non-trivial = a claim returned records and a limit cut the candidate list.",
-		Quick: 1500, Thorough: 40000,
+		Quick: 6000, Thorough: 100000,
 		Gen: genC11Seq, Run: runC11Seq,
 	})
 }
